@@ -67,6 +67,45 @@ def fuse_main():
     sys.exit(0)
 
 
+def fuse_reparameterised():
+    """history: a fuse is evaluated, then given new (monotone) characteristic data, then evaluated again: the melting time follows the new data
+    and is non-increasing in the current"""
+    fails = []
+    net, sw = _net()
+    f = Fuse(net, sw, fuse_type="none", rated_i_a=100)
+    x1, t1 = [150., 250., 430., 900., 1250.], [5400., 400., 20., 1., 0.8]
+    x2, t2 = [400., 750., 1453., 3025., 4315., 7600.], [4800., 120., 7., 0.2, 0.04, 0.004]
+    f.create_characteristic(net, x1, t1)
+    net.res_switch_sc.at[sw, "ikss_ka"] = 0.6
+    f.protection_function(net, "sc")
+    f.create_characteristic(net, x2, t2)
+    last = None
+    for i_a in np.sort(np.concatenate([np.linspace(300., 8000., 60), x2])):
+        net.res_switch_sc.at[sw, "ikss_ka"] = i_a / 1000.
+        r = f.protection_function(net, "sc")
+        if bool(r["trip_melt"]) != bool(i_a >= min(x2) - 1e-9):
+            fails.append(f"after re-parameterisation: at {i_a:.4g} A trip={r['trip_melt']} but the new curve starts at {min(x2)} A")
+            break
+        if not r["trip_melt"]:
+            continue
+        t = r["trip_melt_time_s"]
+        if last is not None and t > last * (1 + 1e-6) + 1e-12:
+            fails.append(f"after re-parameterisation: melting time increases with current ({last:.6g} s -> {t:.6g} s at {i_a:.5g} A)")
+            break
+        last = t
+    for x, t_ in zip(x2, t2):
+        net.res_switch_sc.at[sw, "ikss_ka"] = x / 1000.
+        got = f.protection_function(net, "sc")["trip_melt_time_s"]
+        if not np.isclose(got, t_, rtol=1e-6):
+            fails.append(f"after re-parameterisation: melting time at the data point {x} A is {got:.6g} s, the new data say {t_} s")
+            break
+    for m in fails:
+        print("REPRODUCED:", m)
+    if not fails:
+        print("not reproduced: a re-parameterised fuse follows its new characteristic")
+    sys.exit(1 if fails else 0)
+
+
 def relay_main(rtype, curve, settings=None):
     net, sw = _net()
     r = OCRelay.__new__(OCRelay)
